@@ -46,6 +46,10 @@ class Model:
         self.f_tradevol = self.getter_field("get_trade_vol")
         rest = [n for n in bf if n not in (self.f_orders, self.f_trades, self.f_trading, self.f_ask,
                                            self.f_bid, self.f_clock, self.f_tradevol)]
+        # queue-stamp counter (if any): a second field of the clock's type
+        stamps = [n for n in rest if bf[n] == bf[self.f_clock]]
+        self.f_stamp = stamps[0] if len(stamps) == 1 else None
+        rest = [n for n in rest if n != self.f_stamp]
         self.f_tick = one(rest, "tick size field (the remaining OrderBook field)")
         # ---- side struct fields by type
         sf = {f["name"]: f["ty"] for f in p.adt_fields(SIDE_STRUCT)}
